@@ -103,6 +103,10 @@ pub mod stdcoll {
         ensures vstd::laws_cmp::obeys_cmp_spec::<T>() ==>
             r == (if vstd::std_specs::cmp::OrdSpec::cmp_spec(&b, &a) == core::cmp::Ordering::Less { b } else { a });
 
+    // Formatter::write_fmt (the target of `write!`): no contract — the formatted text is never
+    // inspected by verified code; listed so that `impl Display` bodies can be extracted as they are.
+    pub assume_specification<'a>[ std::fmt::Formatter::<'a>::write_fmt ](f: &mut std::fmt::Formatter<'a>, args: std::fmt::Arguments<'_>) -> std::fmt::Result;
+
     // ---- by-reference iteration ------------------------------------------------------------
     pub assume_specification<'a, T, A: Allocator + Clone>
         [ <&'a BTreeSet<T, A> as IntoIterator>::into_iter ]
